@@ -72,6 +72,42 @@ PROPS = {
 }
 PROPS["C05"]["known_probes"] = ["findings/C05-influx-stream-parser-spins.json"]
 PROPS["C05"]["stall_timeout"] = 60
+PROPS["C05"]["crash_is_violation"] = True
+
+READ_COMPONENTS = {
+    "real": ["reader: mux router with every read route (Loki, Prometheus, Tempo, Pyroscope), controllers, services", "LogQL/TraceQL/PromQL/profile transpilers, ClickhouseGetterPlanner Scan/ScanMatrix, internal_planner stage goroutines, step post-processors",
+             "streaming JSON encoders, dbVersion cache, StableSqlxDBWrapper, database/sql connection pool", "prometheus promql engine on the CLokiQueriable storage adapter"],
+    "stub": ["ClickHouse query face (zz_verif/sqlfake): database/sql driver that never interprets SQL; serves scripted typed result sets by projection column name; injects connect/query errors, error or stall at row k, latencies"],
+    "not_simulated": ["net/http server loop, websocket upgrade of /tail (Tail is driven at the service level)", "the content of SQL (nothing executes it)"],
+    "scheduler": "baton scheduler over AST-inserted yields, as for the writer",
+}
+
+
+def read(pid, test, technique, level_text, level_note, rule, probes, crash=False, quick_checks=400, design_ref=""):
+    return {
+        "pkg": "readsim", "test": test, "instrument": True, "instr_pkgs": ["./writer/...", "./reader/..."], "level": "exploration",
+        "quick": {"workers": 16, "checks": quick_checks, "shrink": "45s", "worker_timeout": 1500},
+        "thorough": {"workers": 16, "checks": 4000, "shrink": "120s", "budget": 1200, "worker_timeout": 3000},
+        "technique": technique, "level_text": level_text, "level_note": level_note, "rule": rule, "probes": probes,
+        "components": READ_COMPONENTS, "trusted_base": ["synctest fake clock and quiescence", "database/sql semantics of the scripted driver (typed values by column name)"],
+        "stall_is_violation": crash, "crash_is_violation": crash, "stall_timeout": 60, "design_ref": design_ref,
+        "assumptions": ["result sets have the column types ClickHouse returns for the projected column names"],
+    }
+
+
+READ_RULE = ("a case is one seeded run of the whole reader in a synctest bubble: 1-3 concurrent clients x 1-4 requests over 26 endpoint kinds, query text from a LogQL/PromQL/TraceQL grammar sample, mutated or random, "
+             "parameters including zero/negative/reversed/huge/non-numeric values, a scripted result set (0-7 series x 0-250 rows, fingerprint 0 first, interleaved, JSON/logfmt/malformed lines), database faults "
+             "(connect error, statement error, error or stall at row k, latencies), client faults (goes away, slow consumer) and a schedule tape. Non-trivial = a fault was configured or the scheduler had a real choice; "
+             "distinct = distinct hash of the grant sequence + number of SQL statements.")
+
+PROPS["C12"] = read("C12", "TestRead", "deterministic simulation of the reader on a scripted fault-injecting database/sql driver; oracles: response or abort in bounded simulated time, no unrecovered panic/fatal error in any goroutine, goroutine census back to baseline, livelock detection",
+                    "Every read endpoint is driven with grammar-generated, mutated and random queries and hostile parameters while the database fails or stalls at arbitrary rows and clients go away; a panic on any goroutine (the pipeline stages run outside net/http's recover), a fatal runtime error that kills the worker, a request that never returns and request goroutines alive 35 simulated seconds after the end are violations.",
+                    "inputs and fault points are sampled; SQL is never executed", READ_RULE,
+                    ["rows-closed-before-end", "status-2xx", "status-5xx", "endpoint-query_range", "endpoint-search", "endpoint-prom_range"], crash=True, design_ref="DESIGN.md §5 C12")
+PROPS["C15"] = read("C15", "TestRead", "deterministic simulation (fault-free configuration) of the query endpoints on scripted result sets; oracle: the collected body parses as one JSON document and, for pass-through log queries, contains every served row exactly once under one object per label set",
+                    "The real pipeline (Scan batching at 100 rows, stage goroutines, streaming encoder) sits between the scripted rows and the body; result-set shapes (empty, batch-boundary inside a series, fingerprint 0 first, interleaved series, special characters) are sampled by the generator. Weak claim: the decisive quantifier (result sets) is sampled.",
+                    "row-level comparison only for plain selector queries (no stage changes the rows); other endpoints are checked for being one well-formed JSON document", READ_RULE,
+                    ["status-2xx", "endpoint-query_range", "endpoint-query"], design_ref="DESIGN.md §5 C15")
 PROPS.update({
     "C18": {
         "pkg": "ctrlsim", "test": "TestC18", "instrument": False, "level": "fault_enumeration",
